@@ -229,7 +229,7 @@ def make_inputs(tier, seed):
         yield from systematic(stride=5, offset=seed)
         yield from chains(rng, 5, 3)
     else:
-        for _ in range(9000):
+        for _ in range(15000):
             yield rand_tree(rng)
         yield from systematic()
         yield from chains(rng, 8, 4)
